@@ -37,6 +37,13 @@ def splitShape (shape splits : List Nat) : List (List (Nat × Nat)) :=
 def splitShapeOld (shape splits : List Nat) : List (List (Nat × Nat)) :=
   productL (List.zipWith splitAxisOld shape splits)
 
+/-! ### `equal_shape=False`: tiles of extent `floor(N/k)`, the last one takes the remainder -/
+def tileU (N k j : Nat) : Nat × Nat :=
+  if j < k - 1 then (j * (N / k), (j + 1) * (N / k)) else (j * (N / k), N)
+def splitAxisU (N k : Nat) : List (Nat × Nat) := (List.range (max k 1)).map (tileU N (max k 1))
+def splitShapeU (shape splits : List Nat) : List (List (Nat × Nat)) :=
+  productL (List.zipWith splitAxisU shape splits)
+
 /-! ## subset_array: one axis of a tile with margin -/
 
 structure TileAxis where
@@ -68,6 +75,9 @@ def TileAxis.src (t : TileAxis) (q : Nat) : Nat :=
 
 /-- `target_padding(pad_target=True)` per axis -/
 def targetPadding (m : Nat) : Nat := m - m % 2
+
+/-- … multiplied by `1 - is_target_batch`: no margin along a batch axis of the target -/
+def targetPaddingB (m : Nat) (batch : Bool) : Nat := if batch then 0 else targetPadding m
 
 /-! ## memory model -/
 
